@@ -195,32 +195,9 @@ def check_block_layout(ctx, oid="C15.5"):
     want = tm.cat([P("blk_hdr", tm.BYTES), tm.app(c05.CS, [tm.length(txns)], ty=tm.BYTES), tm.join(b"", txns)])
     got = ev.run(fs).value()
     R.check(oid, "LAYOUT", fs, "block = header || cs(#tx) || transactions in order", tm.veq(got, want), "block_ser: %s" % tm.first_diff(got, want))
-    # mine_block: coinbase leaf zero, commitment hash
-    fm = ctx.fn("bits.integrations.mine_block")
-    evm = ctx.evaluator(opaque=c04.OPAQUE | {"bits.tx.tx_deser", "bits.blockchain.merkle_root", "bits.blockchain.block_header", "bits.tx.coinbase_tx",
-                                             "bits.script.utils.scriptpubkey", "bits.integrations.median_time", "bits.blockchain.target_threshold",
-                                             "bits.blockchain.block_ser", "bits.rpc.rpc_method"})
-    sm = evm.run(fm)
-    wl = [lp for lp in sm.loops if lp.func == fm.qualname and any(init == [b"\x00" * 32] for init in lp.init.values())]
-    R.check(oid, "TERM-EQ", fm, "wtxid tree starts with the all-zero coinbase leaf", bool(wl), "the witness merkle tree does not start with a 32-byte zero leaf for the coinbase")
-    cbc = [c for c in sm.calls if c[0] == "bits.tx.coinbase_tx"]
-    okc = False
-    for c in cbc:
-        w = c[2].get("witness_merkle_root_hash")
-        okc = okc or tm.contains(w, lambda t: isinstance(t, T) and t.op == "hash" and tm.contains(t, lambda u: isinstance(u, T) and u.op == "app" and u.args[0] == "bits.blockchain.merkle_root")
-                                 and tm.contains(t, lambda u: u == b"\x00" * 32 or (isinstance(u, bytes) and u.endswith(b"\x00" * 32))))
-    R.check(oid, "TERM-EQ", fm, "commitment = SHA256d(witness merkle root || reserved value)", okc, "mine_block does not commit to SHA256d(witness root || 0^32)")
-    hdr = [c for c in sm.calls if c[0] == "bits.blockchain.block_header"]
-    okh = bool(hdr) and all(isinstance(c[1][2], T) and c[1][2].op == "app" and c[1][2].args[0] == "bits.blockchain.merkle_root" for c in hdr)
-    R.check(oid, "TERM-EQ", fm, "header commits to merkle_root(txids)", okh, "the block header's merkle root is not merkle_root(...) of the collected txids")
-    if okh:
-        arg = hdr[0][1][2].args[1][0]
-        pat = T("map", (tm.unhex(T("idx", (T("proj", (tm.app("bits.tx.tx_deser", [tm.bv(0), rules.W("raw")], ty=tm.TUPLE), 0)), "txid"))), rules.W("txns"), None), tm.LIST)
-        m = rules.match(pat, arg)
-        ser = [c for c in sm.calls if c[0] == "bits.blockchain.block_ser"]
-        okt = m is not None and bool(ser) and tm.veq(tm._fz(ser[0][1][1]), m["txns"])
-        R.check(oid, "THREAD", fm, "every txid in the header tree is tx_deser(tx)['txid'] of the serialised block's own transactions (coinbase included)", okt,
-                "the txid list for the header merkle root is %s" % tm.show(arg)[:200], example="a block with a segwit transaction and a witness-commitment coinbase")
+    # mine_block: decided on scripted mempools (shared with C04)
+    c04.check_mine_block(ctx, oid)
+
 
 def run(ctx):
     check_merkle(ctx)
@@ -228,7 +205,6 @@ def run(ctx):
     check_coinbase_tx(ctx)
     check_block_layout(ctx)
     c04.check_block_deser(ctx, "C15.5")
-    c04.check_mine_block(ctx, "C15.5")
     c05.check_writer(ctx, "C15.6")
     c05.check_reader(ctx, "C15.6")
     from . import rt
